@@ -94,7 +94,9 @@ class Pages(Files):
                 return self.file_response(
                     filepath, stat_result, if_none_match, if_modified_since
                 )(environ, start_response)
-            if stat.S_ISDIR(stat_result.st_mode):
+            if stat.S_ISDIR(stat_result.st_mode) and not decode_path_info(
+                environ
+            ).endswith("/"):
                 url = URL(environ=environ)
                 url = url.replace(scheme="", path=url.path + "/")
                 return RedirectResponse(url)(environ, start_response)
